@@ -3515,19 +3515,39 @@ def cli_main():
         for d in include_dirs:
             log.info('search: {}'.format(d))
 
-    if args.labels:
-        lines = ['{} 0x{:08x}\n'.format(k, v) for k, v in labels.items()]
-        with open(args.labels, 'w') as f:
-            f.writelines(lines)
+    # write every output next to its destination first and move them into place only once all of
+    # them exist: a failure half way (unwritable path, hex conversion) must not leave a mix of old and new files
+    staged = []
+    try:
+        if args.labels:
+            lines = ['{} 0x{:08x}\n'.format(k, v) for k, v in labels.items()]
+            staged.append((args.labels + '.part', args.labels))
+            with open(args.labels + '.part', 'w') as f:
+                f.writelines(lines)
 
-    with open(args.output, 'wb') as out_bin:
-        out_bin.write(binary)
+        staged.append((args.output + '.part', args.output))
+        with open(args.output + '.part', 'wb') as out_bin:
+            out_bin.write(binary)
 
-    # output an additional file in the Intel HEX format at the given offset
-    if hex_offset is not None:
-        from intelhex import bin2hex
+        # output an additional file in the Intel HEX format at the given offset
+        if hex_offset is not None:
+            from intelhex import bin2hex
 
-        bin2hex(args.output, args.output + '.hex', hex_offset)
+            staged.append((args.output + '.hex.part', args.output + '.hex'))
+            if bin2hex(args.output + '.part', args.output + '.hex.part', hex_offset) != 0:
+                raise SystemExit('failed to write hex file: {}'.format(args.output + '.hex'))
+
+        for part, path in staged:
+            if os.path.isdir(path):
+                raise SystemExit('output path is a directory: {}'.format(path))
+    except BaseException:
+        for part, path in staged:
+            if os.path.isfile(part):
+                os.remove(part)
+        raise
+
+    for part, path in staged:
+        os.replace(part, path)
 
 
 if __name__ == '__main__':
